@@ -297,6 +297,16 @@ func unfaithful(what, a, b string) {
 	os.Exit(3)
 }
 
+// foreign: the store returned a value that was never given to it in this history (not in the universe): a verdict, not a
+// harness failure (exit status 3, reported by the checks with the history number)
+var curHist = -1
+
+func foreign(what string) {
+	emit(map[string]interface{}{"kind": "foreign_result", "what": "a lookup / listing returned a value that was never stored in this store",
+		"a": what, "b": fmt.Sprintf("history %d (graph objects or state leaking between stores of one process?)", curHist)})
+	os.Exit(3)
+}
+
 // faithful checks key equal <-> UUID equal over a list of (key, uuid, printed form), in linear time
 func faithful(what string, keys, uuids, strs []string) {
 	byU, byK := map[string]int{}, map[string]int{}
@@ -609,7 +619,7 @@ func (sc *scenario) jPools() jPools {
 func (sc *scenario) encPredicate(p *predicate.Predicate) []uint64 {
 	id, ok := sc.idByS[string(p.ID())]
 	if !ok {
-		must(fmt.Errorf("unknown predicate id %q", p.ID()))
+		foreign(fmt.Sprintf("predicate id %q", p.ID()))
 	}
 	if p.Type() == predicate.Immutable {
 		return []uint64{uint64(id), 0}
@@ -623,7 +633,7 @@ func (sc *scenario) encPredicate(p *predicate.Predicate) []uint64 {
 func (sc *scenario) encNode(n *node.Node) uint64 {
 	i, ok := sc.nodeByS[n.String()]
 	if !ok {
-		must(fmt.Errorf("unknown node %v", n))
+		foreign(fmt.Sprintf("node %v", n))
 	}
 	return uint64(i)
 }
@@ -635,7 +645,7 @@ func (sc *scenario) encObject(o *triple.Object) []uint64 {
 	if l, err := o.Literal(); err == nil {
 		i, ok := sc.litByS[l.String()]
 		if !ok {
-			must(fmt.Errorf("unknown literal %v", l))
+			foreign(fmt.Sprintf("literal %v", l))
 		}
 		return []uint64{1, uint64(i)}
 	}
@@ -647,7 +657,7 @@ func (sc *scenario) encObject(o *triple.Object) []uint64 {
 func (sc *scenario) encTriple(t *triple.Triple) []uint64 {
 	u, ok := sc.byStr[t.String()]
 	if !ok {
-		must(fmt.Errorf("triple outside the universe: %s", t))
+		foreign(fmt.Sprintf("triple %s", t))
 	}
 	out := []uint64{sc.encNode(t.Subject())}
 	out = append(out, sc.encPredicate(t.Predicate())...)
@@ -1076,7 +1086,7 @@ func (w *world) observe(res int) jobs {
 			func(t *triple.Triple) {
 				u, ok := w.sc.byStr[t.String()]
 				if !ok {
-					must(fmt.Errorf("listing returned a triple outside the universe: %s", t))
+					foreign(fmt.Sprintf("triple %s (in Triples())", t))
 				}
 				ranks = append(ranks, u.rank)
 			}))
@@ -1128,6 +1138,20 @@ func bigBatch(r *rand.Rand, usize, n int) []int {
 }
 
 // ---------------------------------------------------------------- generators
+// twin: another universe triple with the SAME key as t (an anchor written in another zone); t itself if there is none
+func (sc *scenario) twin(r *rand.Rand, t int) int {
+	var c []int
+	for i, b := range sc.univ {
+		if i != t && tkey(b) == tkey(sc.univ[t]) {
+			c = append(c, i)
+		}
+	}
+	if len(c) == 0 {
+		return t
+	}
+	return c[r.Intn(len(c))]
+}
+
 // sibling: a universe triple that shares one of the three pair keys (S+P id, P id+O, S+O) with t; t itself if there is none
 func (sc *scenario) sibling(r *rand.Rand, t int) int {
 	a := sc.univ[t]
@@ -1221,6 +1245,9 @@ func (w *world) randomOp(r *rand.Rand, stored map[int]map[int]bool, big bool) op
 			}
 			sort.Ints(ks)
 			i = ks[r.Intn(len(ks))]
+			if r.Intn(3) == 0 { // the same triple in its other spelling (same instant written in another zone), if any
+				i = sc.twin(r, i)
+			}
 		}
 		is = append(is, i)
 		if r.Intn(5) == 0 && len(is) > 0 { // duplicate inside the batch
@@ -1368,6 +1395,7 @@ func histSeed(seed int64, idx int) int64 { return seed*1000003 + int64(idx)*7919
 
 func genHistory(seed int64, idx int, maxops int, usize int, c02, c09 bool, uptoStep int) (*world, histOut, []opx) {
 	r := rand.New(rand.NewSource(histSeed(seed, idx)))
+	curHist = idx
 	lkStats = [4]int{}
 	lkDistinct = map[[3]uint64]bool{}
 	wide := idx%32 == 9 // every thirty-second history: a universe of 150..300 triples, graphs and results of hundreds
